@@ -38,4 +38,16 @@ TEXT = {
                 "injected bucket states; select_nth_unstable by contract.",
         "technique": "Lean 4 proof (decide over extracted tables, kernel KAT) + spec/model/code differential replay",
     },
+    "C10": {
+        "level": "Proof: for every generator state (reachable or injected), parameter set, configuration and "
+                 "variant: finalize returns a data-length error iff the validity classification is an error for "
+                 "the mode and not (allow_small and not TooLarge) (length_error_iff); o <= o' in the "
+                 "permissiveness order and finalize(o)=Ok(h) imply finalize(o')=Ok(h) (finalize_mono); "
+                 "allow_quarter excludes both distribution errors (quarter_implies_half); the generator's "
+                 "MIN/MIN_CONSERVATIVE/MAX are the extracted constants and equal the reference (C01.tables). "
+                 "Correspondence: every injected state finalized under all 32 options vs model; published "
+                 "DataLengthValidity API and Generator::MIN/MIN_CONSERVATIVE/MAX vs model (stream limits).",
+        "note": COMMON_NOTE,
+        "technique": "Lean 4 proof by case analysis on the option gates + model/code differential replay",
+    },
 }
